@@ -216,7 +216,7 @@ namespace Global
 
 theorem tick_keeps {n : Nat} {c : Cfg} (hn : n ≤ c.mem.length) (i : Nat) :
     n ≤ (tick n c i).mem.length ∧ (tick n c i).mem.take n = c.mem.take n := by
-  unfold tick
+  unfold tick tickWith
   split
   · exact ⟨hn, rfl⟩
   · split
@@ -239,6 +239,10 @@ theorem exec_keeps {n : Nat} : ∀ (s : List Nat) (c : Cfg), n ≤ c.mem.length 
     obtain ⟨h1, h2⟩ := tick_keeps hn i
     obtain ⟨h3, h4⟩ := ih (tick n c i) h1
     exact ⟨h3, h4.trans h2⟩
+
+/-- results only: what the steps of a goroutine answered and which register fingerprints exist is
+address-independent; the scalar answers (`outs`) are compared -/
+def answers (tr : List (Option St)) : List (Option (List (List Tok))) := tr.map (Option.map (·.outs))
 
 /-- a heap that has `m0` as a prefix preserves every library-owned object of `m0` -/
 theorem preserves_of_prefix {m0 m : Mem} (h : m.take m0.length = m0) (hl : m0.length ≤ m.length) :
